@@ -66,23 +66,62 @@ func pathsN(forms []gen.Step, n int) []*gen.Path {
 	return out
 }
 
+// evalCfg says how a list of expressions is explored.
+type evalCfg struct {
+	Prop   string
+	Ops    []string
+	Mode   string // set | seq
+	WithNS bool
+	NS     map[string]string
+	NavNS  bool
+	// Base, if non-nil, gives for expression i the host expression without
+	// its predicates; a case is then non-trivial when the predicate keeps a
+	// strict non-empty subset of the base candidates.
+	Base func(i int) gen.Expr
+	// Skip, if non-nil, excludes (document, context, reference value) cases
+	// that lie outside the property's fragment.
+	Skip func(t *doc.Tree, ctx int, want ref.Value) bool
+	// NonTrivial, if non-nil, replaces the default non-triviality rule.
+	NonTrivial func(env *ref.Env, ctx int, ast gen.Expr, want ref.Value) bool
+	// SigOf overrides the default signature skeleton.
+	SigOf func(ast gen.Expr) string
+}
+
 // pathSpace explores paths x documents x all context nodes x ops.
 func pathSpace(prop, name, desc string, paths []*gen.Path, docs func() []*doc.Tree, ops []string, mode string) *explore.Space {
-	strs := make([]string, len(paths))
+	exprs := make([]gen.Expr, len(paths))
 	for i, p := range paths {
+		exprs[i] = p
+	}
+	return exprSpace(name, desc, exprs, docs, &evalCfg{Prop: prop, Ops: ops, Mode: mode})
+}
+
+// exprSpace explores expressions x documents x all context nodes x ops.
+func exprSpace(name, desc string, exprs []gen.Expr, docs func() []*doc.Tree, cfg *evalCfg) *explore.Space {
+	strs := make([]string, len(exprs))
+	for i, p := range exprs {
 		strs[i] = gen.Render(p)
 	}
 	return &explore.Space{
-		Name: name, Desc: desc, Size: len(paths),
+		Name: name, Desc: desc, Size: len(exprs),
 		Label: func(i int) string { return strs[i] },
 		Run: func(i int, w *explore.Worker) {
-			runExprOnDocs(prop, w, strs[i], paths[i], docs(), ops, mode, false, nil, false)
+			var base gen.Expr
+			if cfg.Base != nil {
+				base = cfg.Base(i)
+			}
+			runExprOnDocs(cfg, w, strs[i], exprs[i], base, docs())
 		},
 	}
 }
 
 // runExprOnDocs compiles once and evaluates on every (document, context).
-func runExprOnDocs(prop string, w *explore.Worker, s string, ast gen.Expr, docs []*doc.Tree, ops []string, mode string, withNS bool, ns map[string]string, navNS bool) {
+func runExprOnDocs(cfg *evalCfg, w *explore.Worker, s string, ast, base gen.Expr, docs []*doc.Tree) {
+	prop, ops, mode, withNS, ns, navNS := cfg.Prop, cfg.Ops, cfg.Mode, cfg.WithNS, cfg.NS, cfg.NavNS
+	skel := gen.Skeleton(ast)
+	if cfg.SigOf != nil {
+		skel = cfg.SigOf(ast)
+	}
 	e, err, pan := eng.Compile(s, withNS, ns)
 	if pan != nil || err != nil {
 		got := ""
@@ -93,7 +132,7 @@ func runExprOnDocs(prop string, w *explore.Worker, s string, ast gen.Expr, docs 
 		}
 		ec := &evalCase{Expr: s, AST: ast, WithNS: withNS, NS: ns, NavNS: navNS, T: docs[0], Ctx: 0, Op: ops[0], Mode: mode}
 		w.Eval()
-		w.Violation(ec.toCase("eval", "^nodes: || ^bool: || ^num: || ^str:", got, "compile", prop+"|"+gen.Skeleton(ast)+"|compile-rejected"))
+		w.Violation(ec.toCase("eval", "^nodes: || ^bool: || ^num: || ^str:", got, "compile", prop+"|"+skel+"|compile-rejected"))
 		return
 	}
 	w.Sample(s + " on " + docs[len(docs)/2].String())
@@ -101,14 +140,33 @@ func runExprOnDocs(prop string, w *explore.Worker, s string, ast gen.Expr, docs 
 		env := &ref.Env{T: t, NSMap: nsIf(withNS, ns), NavHasURI: navNS}
 		for ctx := range t.Nodes {
 			want := ref.Eval(env, ctx, ast)
+			if want.T == ref.TUndef {
+				w.Count("skipped_undefined", 1)
+				continue
+			}
+			if cfg.Skip != nil && cfg.Skip(t, ctx, want) {
+				w.Count("skipped_outside_fragment", 1)
+				continue
+			}
 			nontriv := false
 			switch want.T {
 			case ref.TNodeSet:
 				nontriv = len(want.NS) > 0
-				w.RefOutcome(ternary(nontriv, "nonempty", "empty"))
+				if base != nil {
+					b := ref.Eval(env, ctx, base)
+					nontriv = len(want.NS) > 0 && len(want.NS) < len(b.NS)
+				}
+				w.RefOutcome(ternary(nontriv, "nontrivial", "trivial"))
 			default:
 				nontriv = true
-				w.RefOutcome(want.String())
+				if cfg.NonTrivial != nil {
+					nontriv = cfg.NonTrivial(env, ctx, ast, want)
+				}
+				rs := want.String()
+				if len(rs) > 24 {
+					rs = rs[:24]
+				}
+				w.RefOutcome(rs)
 			}
 			for _, op := range ops {
 				w.Eval()
@@ -124,8 +182,10 @@ func runExprOnDocs(prop string, w *explore.Worker, s string, ast gen.Expr, docs 
 				class := ""
 				if o.Kind == "nodes" && want.T == ref.TNodeSet {
 					class = eng.DiffClass(ternaryInts(mode == "set", eng.AsSet(o.Nodes), o.Nodes), want.NS)
-				} else {
+				} else if o.IsPanic() || o.Kind == "hang" || o.Kind == "badtype" || o.Kind == "nil" {
 					class = o.Kind
+				} else {
+					class = "value"
 				}
 				if e2, err2, _ := eng.Compile(s, withNS, ns); err2 == nil && e2 != nil {
 					o2 := runOp(e2, t, ctx, navNS, op)
@@ -135,7 +195,7 @@ func runExprOnDocs(prop string, w *explore.Worker, s string, ast gen.Expr, docs 
 				}
 				w.EngOutcome(class)
 				ec := &evalCase{Expr: s, AST: ast, WithNS: withNS, NS: ns, NavNS: navNS, T: t, Ctx: ctx, Op: op, Mode: mode}
-				sig := prop + "|" + gen.Skeleton(ast) + "|ctx=" + ctxKind(t, ctx) + "|" + op + "|" + class
+				sig := prop + "|" + skel + "|ctx=" + ctxKind(t, ctx) + "|" + op + "|" + class
 				w.Violation(ec.toCase("eval", wantString(want, mode), normalise(o, mode), class, sig))
 			}
 		}
